@@ -465,6 +465,90 @@ def gen_cases(tier, rng):
         yield gen_history(tier, rng, nmax, views_ok=(i % 3 == 0))
 
 
+# ---------------------------------------------------------------------------------------------
+# statevector simulator = column 0 of the circuit matrix (model: svRun; Lean: C05_svRun_eq_col0)
+# ---------------------------------------------------------------------------------------------
+
+def gen_sim_cases(tier, rng):
+    n = 900 if tier == "thorough" else 160
+    for i in range(n):
+        nf = rng.choice([1, 1, 2, 3])
+        nmax = 5 if i % 12 == 0 else 4
+        while True:
+            sizes = [rng.randint(1, 3) for _ in range(nf)]
+            if 1 <= sum(sizes) <= nmax:
+                break
+        ids = rng.sample([0, 2, 4], nf)
+        defs = [[fid, s_, 2] for fid, s_ in zip(ids, sizes)]
+        allp = [(fid, k) for fid, s_, _ in defs for k in range(s_)]
+        length = rng.choice([0, 1, 2, 3, 5, 8, 12])
+        gates = []
+        for _ in range(length):
+            if rng.random() < 0.03:
+                gates.append({"gate": {"kind": "ctrl", "cls": "barrier"}, "particles": []})
+                continue
+            gd, m = c04.rand_gate_desc(rng, min(len(allp), 3))
+            gates.append({"gate": gd, "particles": [list(p) for p in rng.sample(allp, m)]})
+        yield {"op": "sim.statevector", "field_defs": defs, "order": list(ids), "gates": gates}
+
+
+def sim_impl(case):
+    qib = _ctx["qib"]
+    fields, objs = c04.build_fields(case)
+    gobjs = [make_obj(g, objs) for g in case["gates"]]
+    circ = qib.Circuit(gobjs)
+    fl = circ.fields()          # the simulator orders the register by first appearance of the fields in the circuit
+    out = {"_fields": [[c04._fid_of(objs, f), int(f.lattice.nsites), int(f.local_dim)] for f in fl],
+           "_gates": [value_of(g, objs) for g in gobjs]}
+    try:
+        with contextlib.redirect_stdout(io.StringIO()):
+            out["psi"] = np.asarray(qib.simulator.StatevectorSimulator().run(circ), dtype=complex).reshape(-1)
+    except Exception as e:
+        out["raised"] = kind_of(e)
+        out["msg"] = f"{type(e).__name__}: {e}"[:120]
+    if gobjs and not any(isinstance(g, qib.operator.ControlInstruction) for g in gobjs):
+        try:
+            with contextlib.redirect_stdout(io.StringIO()):
+                out["_M"] = np.asarray(circ.as_matrix(fl).toarray())
+        except Exception as e:
+            out["_Merr"] = f"{type(e).__name__}: {e}"[:120]
+    return out
+
+
+def sim_req(case, o):
+    if "_gates" not in o:
+        return {"op": "wire", "fields": [], "particle": [0, 0]}
+    return {"op": "sim.statevector", "fields": o["_fields"], "gates": o["_gates"], "round_bits": ROUND_BITS}
+
+
+def sim_compare(case, o, m):
+    if "harness_exception" in o:
+        return "harness exception: " + o["harness_exception"] + " " + o.get("tb", "")[-300:]
+    if ("raised" in o) != ("raised" in m) or o.get("raised") != m.get("raised"):
+        return f"StatevectorSimulator.run: impl {o.get('raised', 'state')} {o.get('msg', '')} != model {m.get('raised', 'state')}"
+    if "psi" in o:
+        sc = float(2 ** ROUND_BITS)
+        mp = np.array([complex(int(z[0]) / sc, int(z[1]) / sc) for z in m["psi"]])
+        if not close(o["psi"], mp):
+            return "StatevectorSimulator.run differs from the model's svRun"
+    return None
+
+
+def sim_oracle(case, o):
+    if "harness_exception" in o:
+        return []
+    bad = []
+    if "_M" in o:
+        if "psi" not in o:
+            bad.append(("C05:statevector:raised", f"StatevectorSimulator.run failed on a gate-only circuit whose matrix exists: {o.get('msg')}"))
+        else:
+            if not close(o["psi"], o["_M"][:, 0]):
+                bad.append(("C05:statevector:not-column-0", f"StatevectorSimulator.run != first column of as_matrix(circ.fields()) for a {len(case['gates'])}-gate circuit"))
+            if abs(np.linalg.norm(o["psi"]) - 1) > 1e-9:
+                bad.append(("C05:statevector:norm", f"|psi| = {np.linalg.norm(o['psi'])}"))
+    return bad
+
+
 def run(rep, tier, rng, drv):
     setup()
 
@@ -479,4 +563,9 @@ def run(rep, tier, rng, drv):
             yield c
     run_correspondence(rep, drv, counted(), impl, model_req, compare, oracle, "circuit.history", batch=60, req_uses_output=True,
                        nontrivial=lambda c, o: "steps" in o and any("mat" in s for s in o["steps"]))
-    rep.cov["not_covered_yet"] = "tensor-network view and simulators: oracle-level consistency only (final circuit of every third history)"
+    def counted_sim():
+        for c in gen_sim_cases(tier, rng):
+            rep.count("sim-circuits")
+            yield c
+    run_correspondence(rep, drv, counted_sim(), sim_impl, sim_req, sim_compare, sim_oracle, "sim.statevector", batch=60, req_uses_output=True)
+    rep.cov["not_covered_yet"] = "tensor-network view and tensor-network simulator: oracle-level consistency only (final circuit of every third history); the statevector simulator is modelled (svRun) and proved equal to column 0"
